@@ -58,6 +58,11 @@ CHECKS = {
         text="All square classes of Spectral.tla (svd and Hermitian kinds, n <= 4 / 5) with 2^-100 / 2^100 scaled replicas, structure classes n = 1..6 (integer dense, already Hessenberg, triangular, Hermitian, zero column, zero matrix, a zero sub-diagonal entry at every elimination step, 0/1 patterns, permutation-like unitary, imaginary sub-column) and Gaussian matrices n <= 7 scaled 1e-8..1e8: P unitary, H = P A P^H, entries below the first sub-diagonal below bound, Frobenius norm preserved and equal to the TLC-known value, trace preserved for Hermitian classes.",
         note="Trusted: oracle product; bound 1024 units.",
         design_ref="5/C09"),
+    "C11": dict(
+        technique="Spectral.tla class space with TLC-computed rank, nullities and determinants, instantiated exactly and run through rank / null-space / det; laws on class pairs; judged by MeasureTrace.tla",
+        text="Every class of Spectral.tla (all (m,n) <= 4x4 / 5x5, all ranks 0..min incl. zero matrix, nullity >= 2, repeated values; Hermitian classes with signed spectra): rank = expected, rank(A^H), rank(GAH) with invertible non-unitary G,H, rank under 2^+-60 scaling; right/left null-space bases (and aliases) have exactly n-r / m-r columns, are mapped to zero and are quaternion-linearly independent (smallest singular value >= 2^-10); Dieudonne determinant = product of singular values (both spellings), zero iff singular, multiplicative on class pairs; Moore determinant = signed product of eigenvalues, ishermitian on classes and 3% perturbations, Moore rejects non-Hermitian. Random prescribed-rank float matrices as well.",
+        note="Known finding (recorded): dependent null-space columns for nullity >= 2. Trusted: oracle product / complex-adjoint singular values; bound 1024 units.",
+        design_ref="5/C11"),
 }
 
 NOT_YET = "check not built yet in this round; see DESIGN.md section 5"
